@@ -3,6 +3,11 @@ Exit 0: every obligation discharged (or only KNOWN-FINDINGs); exit 1 + `VIOLATIO
 exit 2 + `ANALYSIS-ERROR ...` when the checker cannot see its subject (never a VIOLATION line in that case)."""
 import sys, os, json, time, importlib, argparse
 
+if os.environ.get('PYTHONHASHSEED') != '0' and __name__ == '__main__':
+    # the same source must get the same verdict on every run: no dependence on the iteration order of sets of strings
+    os.environ['PYTHONHASHSEED'] = '0'
+    os.execv(sys.executable, [sys.executable] + [a for a in sys.orig_argv[1:]])
+
 sys.path.insert(0, os.path.dirname(os.path.dirname(os.path.abspath(__file__))))
 from sa import core
 from sa.core import Repo, Ob, run_obligation, DISCHARGED, VIOLATION, KNOWN, ERROR, AnalysisError, VERIF
@@ -111,10 +116,10 @@ SHARE = {
     'C08': [('C03.1', 'operators act on ALIGNED operands: the join policies'), ('C03.2', 'as-of fill'), ('C03.3', 'array alignment'), ('C03.7', 'every operand enters the common index'),
             ('C03.8', 'missing columns are NaN, not a number'), ('C03.9', 'nested operands are found'), ('C03.10', 'the call-time policies override the decorator defaults axis by axis')],
     # (C10 is NOT given the dt_bump obligations of C09: its statement defines the expected list BY iterating dt_bump, so a defect of dt_bump is not a defect of drange)
-    'C11': [('C07.2', 'groups are runs of cmp-equal keys in cmp order'), ('C07.3', 'numeric / NaN keys'), ('C07.9', 'string keys rank like native order'), ('C07.10', 'numpy scalars as keys'),
+    'C11': [('C07.2', 'groups are runs of cmp-equal keys in cmp order'), ('C07.8', 'multi-column keys compare lexicographically: equal keys end up adjacent'), ('C07.3', 'numeric / NaN keys'), ('C07.9', 'string keys rank like native order'), ('C07.10', 'numpy scalars as keys'),
             ('C07.11', 'None keys')],
     # (C12 is not given the df_slice obligations: its statement speaks of the 'nona' METHOD, which does not go through the edge slicing of _nona)
-    'C16': [('C15.1', 'd + other is tree_update: neither operand modified'), ('C15.3', 'override semantics of the merge'), ('C15.4', 'the merged mapping keeps the class of the left operand, also when that is empty'), ('C18.8', 'Dict.__call__ binds arguments by name'), ('C18.3', 'the names a callable takes from the mapping are getargs(f): positional AND keyword-only parameters')],
+    'C16': [('C15.1', 'd + other is tree_update: neither operand modified'), ('C15.2', 'the merge walks tree_items: only exact dict / Dict / dictattr values are branches, anything else is a leaf kept as it is'), ('C15.3', 'override semantics of the merge'), ('C15.4', 'the merged mapping keeps the class of the left operand, also when that is empty'), ('C18.8', 'Dict.__call__ binds arguments by name'), ('C18.3', 'the names a callable takes from the mapping are getargs(f): positional AND keyword-only parameters')],
     'C20': [('C02.1', 'perdictable joins its inputs with dictable.join'), ('C02.4', 'cross product of equal keys'), ('C02.5', 'anti-join for the defaulted side'), ('C02.6', 'mode / key columns'),
             ('C02.9', 'key columns of the joined table')],
 }
